@@ -4,7 +4,7 @@ for binary classification tasks.
 
 from typing import Callable
 
-from numpy import add, argsort, array, sqrt, unique, zeros
+from numpy import add, argsort, array, nan, sqrt, unique, zeros
 from pandas import DataFrame, Series, crosstab
 from scipy.stats import chi2_contingency
 
@@ -216,6 +216,11 @@ class BinaryCarver(BaseCarver):
         """
         # number of values taken by the features
         n_mod_x = xtab.shape[0]
+
+        # degenerate crosstab (a single observed class of y, or a modality without observation):
+        # there is no association to measure (chi2_contingency would raise a ValueError)
+        if (xtab.sum(axis=0) == 0).any() or (xtab.sum(axis=1) == 0).any():
+            return {"cramerv": nan, "tschuprowt": nan}
 
         # Chi2 statistic
         chi2 = chi2_contingency(xtab)[0]
